@@ -737,3 +737,65 @@ def closes_borrowed_handle(cls_info):
                 out.append((n, f"closes-borrowed:{p}", f"{cls_info.name}.{mname} closes `{n.value.func.value.id}` unconditionally; it comes from `{p}`, which returns `{mixed[p]}` itself "
                             f"when the object was built around an open file"))
     return out
+
+
+def crossed_family_update(fn_node):
+    """``pkg_restrict.add(f(cat_exact))`` in a function that keeps two parallel families of locals
+    (``cat_exact`` / ``pkg_exact``, ``cat_restrict`` / ``pkg_restrict``): a container of one family is fed only from the
+    other family's variable although its own family has the matching one — the signature of a copy/paste slip."""
+    import collections
+    names = {n.id for n in ast.walk(fn_node) if isinstance(n, ast.Name)}
+    split = {}
+    for n in names:
+        p, _, s = n.partition("_")
+        if p and s:
+            split[n] = (p, s)
+    bysuf = collections.defaultdict(set)
+    for n, (p, s) in split.items():
+        bysuf[s].add(p)
+    out = []
+    for st in A.body_walk(fn_node):
+        if not (isinstance(st, ast.Expr) and isinstance(st.value, ast.Call) and isinstance(st.value.func, ast.Attribute) and isinstance(st.value.func.value, ast.Name)):
+            continue
+        if st.value.func.attr not in ("add", "append", "update", "extend", "insert", "setdefault", "discard", "remove"):
+            continue
+        tgt = st.value.func.value.id
+        if tgt not in split:
+            continue
+        p1, s1 = split[tgt]
+        used = [n.id for a in list(st.value.args) + [k.value for k in st.value.keywords] for n in ast.walk(a) if isinstance(n, ast.Name) and n.id in split and n.id != tgt]
+        if not used or any(split[u][0] == p1 for u in used):
+            continue
+        for u in used:
+            p2, s2 = split[u]
+            if p2 != p1 and s2 != s1 and p2 in bysuf[s1] and f"{p1}_{s2}" in names and f"{p2}_{s1}" in names:
+                out.append((st, f"crossed-family:{tgt}<-{u}", f"`{A.unparse(st)[:70]}` feeds `{tgt}` from `{u}` although `{p1}_{s2}` exists: the function keeps parallel "
+                            f"`{p1}_*` / `{p2}_*` variables and this statement crosses them"))
+                break
+    return out
+
+
+def guard_add_mismatch(fn_node):
+    """``if x not in seen: seen.add(y)`` — the membership test and the insertion it guards name different things, and
+    nothing inserts what was tested: the guard never becomes false for ``x`` (a negated token recorded under its raw
+    spelling while lookups use the bare name)."""
+    out = []
+    for i in ast.walk(fn_node):
+        if not (isinstance(i, ast.If) and isinstance(i.test, ast.Compare) and len(i.test.ops) == 1 and isinstance(i.test.ops[0], ast.NotIn)):
+            continue
+        tested, cont = A.unparse(i.test.left), A.unparse(i.test.comparators[0])
+        adds = [c for s in i.body for c in ast.walk(s) if isinstance(c, ast.Call) and isinstance(c.func, ast.Attribute) and c.func.attr in ("add", "append")
+                and A.unparse(c.func.value) == cont and len(c.args) == 1]
+        stores = [s for st in i.body for s in ast.walk(st) if isinstance(s, ast.Subscript) and isinstance(s.ctx, ast.Store) and A.unparse(s.value) == cont]
+        if not adds or stores:
+            continue
+        if any(A.unparse(c.args[0]) == tested for c in adds):
+            continue
+        # the inserted value must at least be computed from the tested one to count as "the same thing"
+        tested_names = {n.id for n in ast.walk(i.test.left) if isinstance(n, ast.Name)}
+        for c in adds:
+            arg_names = {n.id for n in ast.walk(c.args[0]) if isinstance(n, ast.Name)}
+            if tested_names and not (tested_names & arg_names) and isinstance(c.args[0], ast.Name) and isinstance(i.test.left, ast.Name):
+                out.append((c, f"guard-add-mismatch:{cont}", f"`if {tested} not in {cont}` guards `{A.unparse(c)}`: what is inserted is not what was tested, and `{tested}` itself is never "
+                            f"inserted, so the test stays true for it"))
+    return out
